@@ -3,7 +3,7 @@
    [wr_gen] / cpython_* / tracked_* are the tables regenerated from /repo's ormtypes.py and the running CPython on every run
    (Gen/Mutators.v); the statements quantify over all documents, all paths and all operation sequences.
    Since fix f0ecc86 (+=, *=, |= wrapped; extend / slice assignment listify their iterable) the statements are unconditional. *)
-Require Import PonyV.Base.PyBase PonyV.Model.C28Tracked PonyV.Gen.Mutators PonyV.Model.C28Wrapped PonyV.Proofs.C28Proofs.
+Require Import PonyV.Base.PyBase PonyV.Model.C28Tracked PonyV.Gen.Mutators PonyV.Model.C28Wrapped PonyV.Model.C28Multi PonyV.Proofs.C28Proofs PonyV.Proofs.C28MultiProofs.
 #[local] Open Scope Z_scope.   (* (the line after Require must not start with an identifier: dependency scanner) *)
 
 (* every container reachable from the attribute value is a Tracked* instance bound to one (object, attribute), after any
@@ -69,6 +69,25 @@ Print Assumptions C28_model_complete_list.
 Theorem C28_model_complete_dict : forall s, In s cpython_dict_mutators -> In s modelled_dict_names \/ In s tracked_dict_overridden.
 Proof. exact model_complete_dict. Qed.
 Print Assumptions C28_model_complete_dict.
+
+(* several owners (objects x Json attributes), values read from one and stored into another by any storing method: in every session
+   each container reachable from slot i's root is bound to exactly the owner of slot i (winv), each row follows its own value, and the
+   slot a value was only read from is left exactly as it was (value, tags, write bit) *)
+Theorem C28_multi_wrap_inv : forall ops k docs, exists k', winv k' 0 (wrun wr_gen ops (wload_from k 0 docs)).
+Proof. exact multi_wrap_inv. Qed.
+Print Assumptions C28_multi_wrap_inv.
+Theorem C28_multi_persisted : forall ops k docs,
+  Forall (fun st => dbval (commit st) = canon (untrack (root (commit st)))) (wrun wr_gen ops (wload_from k 0 docs)).
+Proof. exact multi_persisted. Qed.
+Print Assumptions C28_multi_persisted.
+Theorem C28_read_source_untouched : forall w src sp dst dp s, src <> dst ->
+  nth_error (wstep wr_gen w (WCopy src sp dst dp s)) src = nth_error w src.
+Proof. exact (copy_source_untouched wr_gen). Qed.
+Print Assumptions C28_read_source_untouched.
+Example C28_multi_nonvacuous :
+  map (fun st => (dirty st, dbval (commit st))) (wrun wr_gen w_ops (wload_from 0 0 w_docs))
+  = [(false, JDict [([116], JList [JNum 1; JNum 2])]); (true, JDict [([116], JList [JNum 1; JNum 2; JNum 3])])].
+Proof. exact multi_sample. Qed.
 
 (* non-vacuity: a three-level document, nested mutations incl. the formerly lost operators and a tuple iterable, a commit in the
    middle and a new session *)
